@@ -267,6 +267,7 @@ def _run_e2e(case, clauses, viol, obs, shapes):
 
     msgs = []
     stream = b""
+    cut_points = []
     for n, (cmd, kwargs, payload_hex) in enumerate(case["train"]):
         slow = (n + case["e2e"]) % 3 == 0
         kw = {"seq": n, "tag": "t%d" % n}
@@ -277,6 +278,10 @@ def _run_e2e(case, clauses, viol, obs, shapes):
         raw += b"\n"
         if payload is not None:
             raw += payload
+        if payload:
+            # interesting cut points: right behind the payload's header line and inside the payload
+            cut_points.append(len(stream) + len(raw) - len(payload))
+            cut_points.append(len(stream) + len(raw) - len(payload) // 2 - 1)
         stream += raw
         msgs.append((n, slow, payload))
     if not msgs:
@@ -309,11 +314,24 @@ def _run_e2e(case, clauses, viol, obs, shapes):
             m.bcp.interface.register_command_callback("vslow", vslow)
             m.bcp.interface.register_command_callback("vquick", vquick)
             vm.advance(1.0)
-            for mode, seed in [["whole", 0]] + case["chunkings"][:2]:
+            import random
+            for mode, seed in [["whole", 0]] + case["chunkings"][:2] + [["paced", case["e2e"] * 7919 + len(stream)]]:
                 del trace[:]
                 got_payloads.clear()
-                chunks = [stream] if mode == "whole" else _chunks(stream, mode, seed)
-                holder["sock"].recv_queue.extend(chunks)
+                if mode == "paced":
+                    # the same bytes arriving over time: reads separated by generated pauses of the machine clock
+                    # (also right behind a payload's header line and inside a payload)
+                    prng = random.Random(seed)
+                    cuts = set(prng.sample(cut_points, min(len(cut_points), 2)))
+                    cuts.update(prng.randrange(1, max(2, len(stream))) for _ in range(prng.randint(0, 2)))
+                    cuts = sorted(c for c in cuts if 0 < c < len(stream))
+                    for a, b in zip([0] + cuts, cuts + [len(stream)]):
+                        holder["sock"].recv_queue.append(stream[a:b])
+                        vm.advance(prng.choice([0.0, 0.01, 0.3, 1.0, 1.5, 3.0]))
+                        obs["e2e_paced_reads"] = obs.get("e2e_paced_reads", 0) + 1
+                else:
+                    chunks = [stream] if mode == "whole" else _chunks(stream, mode, seed)
+                    holder["sock"].recv_queue.extend(chunks)
                 vm.advance(0.1 * len(msgs) + 2.0)
                 obs["e2e_messages"] = obs.get("e2e_messages", 0) + len(msgs)
                 shapes.add("E:%s:%d" % (mode, min(len(msgs), 5)))
